@@ -1,5 +1,6 @@
 import PytezosModel.Proofs.InterpBytes
 import PytezosModel.Proofs.InterpPack
+import PytezosModel.Proofs.InterpUnpack
 /-! Phase C — contracts and operations: Python's text operations on address texts (`partition('%')`, `_split`,
 `from_value`) against the reference's reading of an address text (`addrOf`, `epOf`, `Spec.normAddr`), and the mirrors
 of ADDRESS / IMPLICIT_ACCOUNT / CONTRACT / SET_DELEGATE / EMIT / TRANSFER_TOKENS against their rules. -/
@@ -59,6 +60,16 @@ theorem execTransferTokens_eq (env : Env) (a b c : Val) (h : Spec.transferTokens
   · simp only [Impl.execTransferTokens, pySplit_fst, pySplit_snd]
   · exact absurd rfl h
 
+theorem execCheckSignature_eq (env : Env) (a b c : Val) (_ : Spec.checkSignatureV env a b c ≠ .stuck) :
+    Impl.execCheckSignature env a b c = Spec.checkSignatureV env a b c := by
+  unfold Impl.execCheckSignature Spec.checkSignatureV
+  split
+  · rfl
+  · rename_i h1
+    split
+    · exact (h1 _ _ _ rfl rfl rfl).elim
+    · rfl
+
 /-- **the unary instructions of extension 2**: the mirror computes the reference value wherever a rule applies -/
 theorem execUn_eq (env : Env) (i : Instr) (a : Val) (h : Spec.unV env i a ≠ .stuck) :
     Impl.execUn env i a = Spec.unV env i a := by
@@ -73,5 +84,6 @@ theorem execUn_eq (env : Env) (i : Instr) (a : Val) (h : Spec.unV env i a ≠ .s
   · exact execSetDelegate_eq env a h
   · exact execEmit_eq env _ _ a
   · exact execPack_eq a h
+  · exact execUnpack_eq env _ a h
 
 end Interp
